@@ -790,7 +790,7 @@ func c15Fuzz(a *core.Aggregate, workDir string) {
 	if a.Tier != "thorough" {
 		return
 	}
-	n := "400000x"
+	n := "1000000x"
 	if v := os.Getenv("VERIF_FUZZ_EXECS"); v != "" {
 		n = v
 	}
